@@ -9,6 +9,7 @@ var All = map[string]*fw.Prop{
 	"C05": C05,
 	"C06": C06,
 	"C08": C08,
+	"C09": C09,
 	"C14": C14,
 	"C16": C16,
 	"C17": C17,
